@@ -148,6 +148,14 @@ Theorem immutable_refuses_stored_mutators : forall T m, In m (gen_public T) -> m
 Proof. apply calls_ok_sound. vm_compute. reflexivity. Qed.
 Print Assumptions immutable_refuses_stored_mutators.
 
+(* ... in every stored form: bound, unbound (the type's method descriptor), wrapped in functools.partial *)
+Theorem immutable_refuses_every_stored_form : forall r T m, ref_target r = Some (T, m) -> In m (gen_public T) ->
+  mutates T m = true -> immutable_safe_ref gen_spec r = false.
+Proof.
+  intros r T m Ht Hin Hmut. rewrite (safe_ref_by_target gen_spec r T m Ht).
+  revert T m Hin Hmut Ht. intros T m Hin Hmut _. revert T m Hin Hmut. apply calls_ok_sound. vm_compute. reflexivity.
+Qed.
+
 (* the domain is not empty: every type has a public mutating method, and a non-mutating one
    that stays available *)
 Theorem domain_nonvacuous : forallb (fun T => existsb (mutates T) (gen_public T)
@@ -155,7 +163,7 @@ Theorem domain_nonvacuous : forallb (fun T => existsb (mutates T) (gen_public T)
   all_btypes = true.
 Proof. vm_compute. reflexivity. Qed.
 """
-        ok, out = sbx_src_tie.checked_obligation(ctx, "SbxGenC19", v, 3)
+        ok, out = sbx_src_tie.checked_obligation(ctx, "SbxGenC19", v, 4)
         if ok:
             ctx.trusted.append("immutable_blocks_mutators (regenerated): " + " ".join(out.split()))
     try:
@@ -268,11 +276,21 @@ PATHS = {
     "host-ref-alias": "{%% set g = hm %%}{{ g(%(a)s) }}",
     "host-ref-loop": "{%% for g in hml %%}{{ g(%(a)s) }}{%% endfor %%}",
     "host-ref-macro": "{%% macro call(g) %%}{{ g(%(a)s) }}{%% endmacro %%}{{ call(hmd['f']) }}",
+    # ... as the UNBOUND method (descriptor of the exact type), wrapped in functools.partial, or reached through the type
+    "host-ref-unbound": "{{ hu(c%(ca)s) }}",
+    "host-ref-unbound-dict": "{{ hud.f(c%(ca)s) }}",
+    "host-ref-partial": "{{ hp(%(a)s) }}",
+    "host-ref-partial-unbound": "{{ hpu(%(a)s) }}",
+    "host-ref-partial-nested": "{{ hpp(%(a)s) }}",
+    "host-type-attribute": "{{ Cls.%(m)s(c%(ca)s) }}",
+    "host-type-attr-filter": "{{ (Cls|attr('%(m)s'))(c%(ca)s) }}",
 }
 # the async immutable sandbox runs every path in the thorough tier and this core set in the quick tier
-ASYNC_QUICK_PATHS = ("attr-filter-lying-eq-name", "handout-defined", "dot", "subscript", "attr-filter", "map-attribute", "set-alias", "deep-dot", "deep-map-dotted", "host-ref",
+ASYNC_QUICK_PATHS = ("host-ref-unbound", "host-ref-partial", "host-type-attribute", "attr-filter-lying-eq-name", "handout-defined", "dot", "subscript", "attr-filter", "map-attribute", "set-alias", "deep-dot", "deep-map-dotted", "host-ref",
                      "host-ref-dict", "format-attr", "format-deep")
-HOST_REF_PATHS = ("host-ref", "host-ref-dict", "host-ref-list", "host-ref-alias", "host-ref-loop", "host-ref-macro")
+HOST_REF_PATHS = ("host-ref", "host-ref-dict", "host-ref-list", "host-ref-alias", "host-ref-loop", "host-ref-macro",
+                  "host-ref-unbound", "host-ref-unbound-dict", "host-ref-partial", "host-ref-partial-unbound", "host-ref-partial-nested",
+                  "host-type-attribute", "host-type-attr-filter")
 FORMAT_PATHS = {
     "format-deep": "{{ '{0.data[inner].c.%(m)s}'.format(deep) }}",
     "format-attr": "{{ '{0.%(m)s}'.format(c) }}{{ '{0.inner.%(m)s}'.format(o) }}",
@@ -355,7 +373,12 @@ def method_data(T, variant, args, m=None):
         data["nm0"], data["nm1"] = _ob.LyingStartswith(m), _ob.LyingEq(m)
     hm = getattr(c, m, None) if m is not None else None
     if callable(hm):
+        import functools
         data.update({"hm": hm, "hmd": {"f": hm}, "hml": [hm]})
+        hu = getattr(type(c), m, None)                       # the unbound method (a method descriptor of the exact type)
+        if callable(hu):
+            data.update({"hu": hu, "hud": {"f": hu}, "hp": functools.partial(hm), "hpu": functools.partial(hu, c),
+                         "hpp": functools.partial(functools.partial(hu), c), "Cls": type(c)})
     for i, a in enumerate(copy.deepcopy(args)):
         data[f"a{i}"] = a
     return data
@@ -387,7 +410,8 @@ def judge_method_case(ctx, envs, case, model_safe, exists=True):
     T, m, ai, variant, path, mode = case["T"], case["m"], case["args"], case["variant"], case["path"], case["mode"]
     args = ARGS[ai]
     tmpl = {**PATHS, **FORMAT_PATHS}[path]
-    src = tmpl % {"m": m, "a": ", ".join(f"a{i}" for i in range(len(args)))}
+    arglist = ", ".join(f"a{i}" for i in range(len(args)))
+    src = tmpl % {"m": m, "a": arglist, "ca": (", " + arglist) if arglist else ""}
     case["template"] = src
     # history: the same template is also rendered by a plain (mutable) sandbox of this process, before
     # ("plain-first") or between two immutable renders ("immutable-first"); every immutable render is judged
